@@ -516,7 +516,10 @@ func (m *FeeMonitor) OnTx(h *Hist, tx *TxRec) {
 	ok := tx.Res.Code == 0
 	msg := tx.Msg.(*bandtsstypes.MsgRequestSignature)
 	fee := h.Cfg.FeePerSigner
-	total := fee.MulInt(math.NewIntFromUint64(h.Cfg.Threshold))
+	total := fee.MulInt(math.NewIntFromUint64(h.Thresholds[h.CurGroupModel]))
+	if h.CurGroupModel == 0 {
+		fee, total = sdk.NewCoins(), sdk.NewCoins()
+	}
 	within := true
 	for _, c := range total {
 		if c.Amount.GT(msg.FeeLimit.AmountOf(c.Denom)) {
